@@ -33,6 +33,14 @@ type DialCell struct {
 	// NilTLS: leave Dialer.TLSClientConfig nil (verification against the
 	// system roots must then fail; SNI is still observable).
 	NilTLS bool `json:"nil_tls,omitempty"`
+	// ViaNewClient (no proxy, no custom dial function): the deprecated
+	// NewClient entry point over a connection supplied by the caller; it has
+	// no TLS configuration, so wss needs the system roots and must fail
+	// against the in-process CA - after a TLS handshake for the URL's host.
+	ViaNewClient bool `json:"via_newclient,omitempty"`
+	// HostHeader: the caller overrides the Host header of the upgrade request;
+	// this names the virtual host, not the server to reach or to verify.
+	HostHeader string `json:"host_header,omitempty"`
 }
 
 var cellHosts = []string{"backend.test", "backend.test:8443", "b2.backend.test:80", "[2001:db8::1]", "[2001:db8::1]:9000", "10.1.2.3", "10.1.2.3:443", "localhost:8080", "backend.test:443", "backend.test:80"}
@@ -103,7 +111,11 @@ func genDialCell(t *rapid.T) DialCell {
 	c.Secure = rapid.Bool().Draw(t, "secure")
 	c.ND, c.NDC, c.NDTLS = rapid.Bool().Draw(t, "nd"), rapid.Bool().Draw(t, "ndc"), rapid.Bool().Draw(t, "ndtls")
 	if !c.ND && !c.NDC && !c.NDTLS {
-		c.NDC = true
+		if c.Proxy == "" {
+			c.ViaNewClient = true
+		} else {
+			c.NDC = true
+		}
 	}
 	c.Creds = rapid.SampledFrom([]string{"", "user", "user:pw", "u%40x:p%3Aw", "ws:pw~ab%3F", "%3E%3E%3E:%3F%3F%3F", "%C3%BC%C3%B1%C3%AE:%E2%82%AC%E2%82%AC", "a:", ":b"}).Draw(t, "creds")
 	c.Cert = rapid.SampledFrom([]string{"valid", "valid", "otherhost", "untrusted"}).Draw(t, "cert")
@@ -116,6 +128,9 @@ func genDialCell(t *rapid.T) DialCell {
 		c.ProxyReply = rapid.SampledFrom(refusals).Draw(t, "refusal")
 	}
 	c.NilTLS = rapid.IntRange(0, 5).Draw(t, "niltls") == 0
+	if rapid.IntRange(0, 3).Draw(t, "host_header") == 0 {
+		c.HostHeader = rapid.SampledFrom([]string{"virtual.example", "other.test:8443", "backend.test"}).Draw(t, "host_header_v")
+	}
 	return c
 }
 
@@ -141,6 +156,11 @@ func checkC18(c DialCell, o *Obs) error {
 		// makes the first hop; it is pointed at a loopback listener whose
 		// accepted connections are served by the same in-process peers.
 		wantFn = "default"
+	}
+	viaNewClient := c.ViaNewClient && c.Proxy == "" && wantFn == "default"
+	if viaNewClient {
+		wantFn = "NewClient"
+		c.NilTLS = true
 	}
 	if u, pw, ok := strings.Cut(c.Creds, ":"); c.Proxy == "socks5" && ok && (u == "" || pw == "") {
 		// RFC 1929 requires non-empty user name and password; what the SOCKS5
@@ -244,7 +264,22 @@ func checkC18(c DialCell, o *Obs) error {
 		hl.mu.Lock()
 		callsBefore := len(hl.calls)
 		hl.mu.Unlock()
-		conn, _, err := d.Dial(scheme+"://"+host+"/path?q=1", nil)
+		var conn *websocket.Conn
+		var err error
+		var hdr http.Header
+		if c.HostHeader != "" {
+			hdr = http.Header{"Host": {c.HostHeader}}
+		}
+		if viaNewClient {
+			u, perr := url.Parse(scheme + "://" + host + "/path?q=1")
+			if perr != nil {
+				return fmt.Errorf("harness: url: %v", perr)
+			}
+			nc, _ := mk("NewClient")(context.Background(), "tcp", withDefaultPort(host, map[bool]string{false: "80", true: "443"}[c.Secure]))
+			conn, _, err = websocket.NewClient(nc, u, hdr, 0, 0)
+		} else {
+			conn, _, err = d.Dial(scheme+"://"+host+"/path?q=1", hdr)
+		}
 		if (conn == nil) == (err == nil) {
 			return fmt.Errorf("dial %d: Dial returned conn=%v err=%v", hi, conn != nil, err)
 		}
